@@ -100,7 +100,15 @@ def run(ctx):
     icpt = one(lambda m: m.name in called_by_prepare and m.cls is fi, 'interception routine')
     above = one(lambda m: any(isinstance(n, ast.Compare) and any(self_attr(x) == 'intercepted_size_limit' for x in ast.walk(n)) and
                               not all(isinstance(o, (ast.Is, ast.IsNot)) for o in n.ops) for n in ast.walk(m.node)), 'size predicate')
-    ser = one(lambda m: has_call(m, 'b64encode'), 'serialize')
+    # serialiser: builds the envelope (a dict with the content key) from a content it is given - with or without the codec call
+    sers = [m for m in fi.methods.values() if m.name != '__init__' and has_call(m, 'b64encode')]
+    if not sers:
+        sers = [m for m in fi.methods.values() if m.name != '__init__' and
+                any(isinstance(n, ast.Dict) and any(isinstance(k, ast.Constant) and k.value == 'file_content' for k in n.keys) for n in ast.walk(m.node)) and
+                not any(isinstance(n, ast.Attribute) and n.attr == 'ABOVE_LIMIT_CONTENT' for n in ast.walk(m.node))]
+    if len(sers) != 1:
+        raise AnalysisError('anchor-lost role=serialize (candidates %s)' % [m.name for m in sers])
+    ser = sers[0]
     des = one(lambda m: has_call(m, 'b64decode'), 'deserialize')
     ph = one(lambda m: m is not des and any(isinstance(n, ast.Attribute) and n.attr == 'ABOVE_LIMIT_CONTENT' for n in ast.walk(m.node)) and
              any(isinstance(n, ast.Return) and isinstance(n.value, ast.Dict) for n in ast.walk(m.node)), 'placeholder result')
